@@ -23,7 +23,7 @@ func TestMain(m *testing.M) {
 	stats.Main(m, "C12")
 }
 
-const rule = "rapid: a broker with (a) a pipeline whose harness nodes call Send - or a writing call (RegisterNode, threshold setters) - on the same broker from Process / Close / Reopen (target type with 0-2 pipelines), (b) a real gated.Filter wired to the same broker with 0-3 pending groups (some expired), (c) 0-2 background goroutines issuing write-locking calls in a loop; then a history of broker calls (Send, Reopen, RegisterNode, RegisterPipeline, RemovePipeline, RemovePipelineAndNodes, RemoveNode, thresholds, IsAnyPipelineRegistered, clock advance), each under a watchdog; oracle = every call returns within the bound, a miss is a violation only if a goroutine dump shows a library goroutine blocked on a lock; non-trivial = the history executed a re-entrant Send from Close or Reopen, or removed a gated filter with >=1 pending group; distinct = case descriptor"
+const rule = "rapid: a broker with (a) a pipeline whose harness nodes call Send - or a writing call (RegisterNode, threshold setters) - on the same broker from Process / Close / Reopen (target type with 0-2 pipelines), (b) a real gated.Filter wired to the same broker with 0-3 pending groups (some expired), (c) 0-2 background goroutines issuing write-locking calls in a loop, (d) a pipeline whose first node is a wrapper without inner node (NodeUnwrapper returning nil, not a Closer); then a history of broker calls (Send, Reopen, RegisterNode, RegisterPipeline, RemovePipeline, RemovePipelineAndNodes, RemoveNode, thresholds, IsAnyPipelineRegistered, clock advance), each under a watchdog; oracle = every call returns within the bound, a miss is a violation only if a goroutine dump shows a library goroutine blocked on a lock; non-trivial = the history executed a re-entrant Send from Close or Reopen, or removed a gated filter with >=1 pending group; distinct = case descriptor"
 
 var bound = 10 * time.Second
 
@@ -50,9 +50,26 @@ func (c *compositeCounter) Process(ctx context.Context, e *eventlogger.Event) (*
 	return c.N.Process(ctx, e)
 }
 
+// emptyWrapper is a decorator whose optional inner node is not set: it implements NodeUnwrapper, is not a
+// Closer, and Unwrap returns nil.
+type emptyWrapper struct{ *nodes.N }
+
+func (emptyWrapper) Unwrap() eventlogger.Node { return nil }
+
+// closeHider hides the embedded node's Close method (the wrapper itself is not a Closer).
+type closeHider struct{ inner *nodes.N }
+
+func (c closeHider) Process(ctx context.Context, e *eventlogger.Event) (*eventlogger.Event, error) {
+	return c.inner.Process(ctx, e)
+}
+func (c closeHider) Reopen() error              { return c.inner.Reopen() }
+func (c closeHider) Type() eventlogger.NodeType { return c.inner.Type() }
+func (c closeHider) Unwrap() eventlogger.Node   { return nil }
+
 type cfg struct {
 	ReWriter                  bool // the re-entrant call is a writing Broker call (RegisterNode / SetSuccessThreshold) instead of Send
 	ReProc, ReClose, ReReopen bool
+	CloseErr                  bool // the nodes of pipeline pa fail their Close (after doing what ReClose asks for)
 	TargetPipes               int
 	SecondG                   bool
 	Writers                   int
@@ -60,7 +77,7 @@ type cfg struct {
 }
 
 func (c cfg) String() string {
-	return fmt.Sprintf("reentry{writer=%v process=%v close=%v reopen=%v} targetPipelines=%d secondGPipeline=%v writers=%d ops=[%s]", c.ReWriter, c.ReProc, c.ReClose, c.ReReopen, c.TargetPipes, c.SecondG, c.Writers, strings.Join(c.Ops, "; "))
+	return fmt.Sprintf("reentry{writer=%v process=%v close=%v reopen=%v closeFails=%v} targetPipelines=%d secondGPipeline=%v writers=%d ops=[%s]", c.ReWriter, c.ReProc, c.ReClose, c.ReReopen, c.CloseErr, c.TargetPipes, c.SecondG, c.Writers, strings.Join(c.Ops, "; "))
 }
 
 func build(c cfg) *world {
@@ -93,6 +110,11 @@ func build(c cfg) *world {
 		x.OnClose = reenter(&wd.reentry, true)
 		sA.OnClose = reenter(&wd.reentry, true)
 	}
+	if c.CloseErr {
+		x.CloseErr = fmt.Errorf("close of x failed")
+		mA.CloseErr = fmt.Errorf("close of mA failed")
+		sA.CloseErr = fmt.Errorf("close of sA failed")
+	}
 	if c.ReReopen {
 		x.OnReopen = reenter(&wd.reentry, true)
 		mA.OnReopen = reenter(&wd.reentry, true)
@@ -107,6 +129,10 @@ func build(c cfg) *world {
 		_ = b.RegisterNode(eventlogger.NodeID(s), mk(s, eventlogger.NodeTypeSink))
 		_ = b.RegisterPipeline(eventlogger.Pipeline{PipelineID: eventlogger.PipelineID(fmt.Sprintf("pb%d", i)), EventType: "B", NodeIDs: []eventlogger.NodeID{eventlogger.NodeID(m), eventlogger.NodeID(s)}})
 	}
+	_ = b.RegisterNode("ew", closeHider{mk("ew", eventlogger.NodeTypeFilter)})
+	_ = b.RegisterNode("mW", mk("mW", eventlogger.NodeTypeFormatter))
+	_ = b.RegisterNode("sW", mk("sW", eventlogger.NodeTypeSink))
+	_ = b.RegisterPipeline(eventlogger.Pipeline{PipelineID: "pw", EventType: "W2", NodeIDs: []eventlogger.NodeID{"ew", "mW", "sW"}})
 	wd.gf = &gated.Filter{Broker: b, Expiration: time.Second, NowFunc: func() time.Time { return time.Unix(0, wd.now.Load()) }}
 	_ = b.RegisterNode("gf", wd.gf)
 	_ = b.RegisterNode("mG", mk("mG", eventlogger.NodeTypeFormatter))
@@ -138,7 +164,7 @@ func exec(f func()) bool {
 	}
 }
 
-var opNames = []string{"sendG", "sendG", "sendG", "flushG", "tick", "tick", "sendA", "sendA", "reopen", "reopen", "rpanG", "rpanA", "rmpipeG+rmnode", "rmpipeA+rmnode", "regnode", "regpipeA", "thr", "isany", "rmpipeB"}
+var opNames = []string{"rpanW", "rmpipeW+rmnodeEW", "sendG", "sendG", "sendG", "flushG", "tick", "tick", "sendA", "sendA", "reopen", "reopen", "rpanG", "rpanA", "rmpipeG+rmnode", "rmpipeA+rmnode", "regnode", "regpipeA", "thr", "isany", "rmpipeB"}
 
 func TestC12Terminates(t *testing.T) {
 	sec := stats.Sec("terminates", rule)
@@ -151,6 +177,7 @@ func TestC12Terminates(t *testing.T) {
 			ReProc:      rapid.Bool().Draw(t, "reProc"),
 			ReClose:     rapid.Bool().Draw(t, "reClose"),
 			ReReopen:    rapid.Bool().Draw(t, "reReopen"),
+			CloseErr:    rapid.IntRange(0, 2).Draw(t, "closeErr") == 0,
 			TargetPipes: rapid.IntRange(0, 2).Draw(t, "targetPipes"),
 			SecondG:     rapid.Bool().Draw(t, "secondG"),
 			Writers:     rapid.IntRange(0, 2).Draw(t, "writers"),
@@ -246,6 +273,10 @@ func TestC12Terminates(t *testing.T) {
 				f = func() { _ = b.SetSuccessThresholdSinks("A", i%2); _, _ = b.SuccessThreshold("A") }
 			case "isany":
 				f = func() { _ = b.IsAnyPipelineRegistered("A"); _, _ = b.SuccessThresholdSinks("G") }
+			case "rpanW":
+				f = func() { _, _ = b.RemovePipelineAndNodes(ctx, "W2", "pw") }
+			case "rmpipeW+rmnodeEW":
+				f = func() { _ = b.RemovePipeline("W2", "pw"); _ = b.RemoveNode(ctx, "ew") }
 			case "rmpipeB":
 				f = func() { _ = b.RemovePipeline("B", "pb0") }
 			}
